@@ -381,6 +381,12 @@ class Dataset:
         try:
             return DataArray(self._vars[k], name=k)
         except KeyError:
+            if isinstance(k, str) and k in self._dim_caps():
+                # a dimension without a coordinate variable: xarray hands out its index 0..size-1
+                cap, n = self._dim_caps()[k], self.sizes[k]
+                from . import symnp as _snp
+                arr = _snp.SArr.new(list(range(cap)), (cap,), None if isinstance(n, int) else n, _snp.int64)
+                return DataArray(arr, dims=[k], name=k)
             raise KeyError(f"No variable named {k!r}. Variables on the dataset include {list(self._vars)}")
 
     def __setitem__(self, k, v):
@@ -409,6 +415,8 @@ class Dataset:
             return self[k]
         if k in d.get("_attrs", {}):
             return d["_attrs"][k]
+        if "_vars" in d and k in self._dim_caps():
+            return self[k]
         raise AttributeError(f"'Dataset' object has no attribute '{k}'")
 
     def _dim_caps(self):
